@@ -1,7 +1,8 @@
 """Runs the real JMC compiler on a batch of (possibly malformed) inputs and classifies the outcome.
 
 Executed with /venv/bin/python and PYTHONPATH=<repo>/src (harness/lib.py: run_py).
-stdin : JSON {"jobs": [{"src", "header"?, "pack_format"?}...], "timeout": seconds (default 5), "cert": str}
+stdin : JSON {"jobs": [{"src", "header"?, "pack_format"?, "alarm"? (seconds, overrides timeout)}...], "timeout": seconds
+              (default 5), "cert": str, "times"? (true: the wall time of the job in seconds is appended to its entry)}
 stdout: JSON list, one entry per job:
    ["ok"]                                        compiled
    ["diag", exception class]                     one of JMC's own diagnostics (jmc.compile.exception.EXCEPTIONS —
@@ -13,7 +14,12 @@ stdout: JSON list, one entry per job:
                                                  names anonymised, prefixed by the kind of statement it belongs to, e.g.
                                                  `Delete:_[3]` for `del tokens[3]`: the crash SITE, stable under renaming
                                                  locals / moving / re-indenting / re-wrapping code
-   ["timeout"]                                   signal.alarm fired
+   ["timeout", file, function, lineno, expr]     signal.alarm fired; the innermost jmc frame that was executing then
+                                                 (same site notation as for "internal")
+ a job {"canary": seconds} does not call the compiler: it spins for that long inside the same alarm bracket and must
+ come back as ["timeout", ...] - the self-test of the hang detector (c13.py runs one in every batch).
+stdin {"op": "builtins"}: stdout = the registry of built-in functions of the tree under test
+   [{"name", "type" (FuncType), "args": {parameter: ArgType name}, "defaults": {parameter: text}}...]
 """
 import ast
 import builtins
@@ -73,13 +79,12 @@ def _site_of(filename, l0, l1, c0, c1):
     return (type(st).__name__ + ":" + "".join(text.split()))[:200]
 
 
-def failing_expr(tb) -> str:
-    """the crash SITE inside the frame of `tb`: kind of statement + the sub-expression that was executing
-    (code.co_positions -> ast node), local variable names anonymised: stable under renaming locals, re-indenting,
-    re-wrapping and moving code; fallback: the raw source text of the line"""
-    code = tb.tb_frame.f_code
+def failing_expr(code, lasti, lineno) -> str:
+    """the crash SITE inside a frame (its code object, instruction offset, line): kind of statement + the sub-expression
+    that was executing (code.co_positions -> ast node), local variable names anonymised: stable under renaming locals,
+    re-indenting, re-wrapping and moving code; fallback: the raw source text of the line"""
     try:
-        l0, l1, c0, c1 = next(itertools.islice(code.co_positions(), tb.tb_lasti // 2, None))
+        l0, l1, c0, c1 = next(itertools.islice(code.co_positions(), lasti // 2, None))
         if None not in (l0, l1, c0, c1):
             site = _site_of(code.co_filename, l0, l1, c0, c1)
             if site is not None:
@@ -87,21 +92,31 @@ def failing_expr(tb) -> str:
     except Exception:  # noqa
         pass
     try:
-        return "line:" + "".join(linecache.getline(code.co_filename, tb.tb_lineno).split())[:160]
+        return "line:" + "".join(linecache.getline(code.co_filename, lineno).split())[:160]
     except Exception:  # noqa
         return "?"
 
 
 def innermost_jmc_frame(tb):
-    """[file, qualified function name, line, failing expression] of the innermost frame that belongs to jmc"""
+    """[file, qualified function name, line, failing expression] of the innermost frame that belongs to jmc.
+    The frames of the traceback are cleared (their locals may hold gigabytes when the job ran into the memory limit)
+    BEFORE the source of the frame is parsed."""
     best = None
+    top = tb
     while tb is not None:
         code = tb.tb_frame.f_code
         if "/jmc/" in code.co_filename.replace("\\", "/"):
-            best = [os.path.basename(code.co_filename), getattr(code, "co_qualname", code.co_name), tb.tb_lineno,
-                    failing_expr(tb)]
+            best = (code, tb.tb_lasti, tb.tb_lineno)
         tb = tb.tb_next
-    return best or ["?", "?", 0, "?"]
+    try:
+        traceback.clear_frames(top)
+    except Exception:  # noqa
+        pass
+    if best is None:
+        return ["?", "?", 0, "?"]
+    code, lasti, lineno = best
+    return [os.path.basename(code.co_filename), getattr(code, "co_qualname", code.co_name), lineno,
+            failing_expr(code, lasti, lineno)]
 
 
 def main():
@@ -112,38 +127,86 @@ def main():
     from jmc.compile.test_compile import JMCTestPack
     from jmc.compile.exception import EXCEPTIONS
     signal.signal(signal.SIGALRM, _alarm)
+    try:        # an input that makes the compiler allocate tens of gigabytes AT ONCE (`[x] * 10**9`) ends in MemoryError instead of
+        #         taking the machine down; gradual growth does not get this far within the alarm (it is reported as a timeout)
+        import resource
+        resource.setrlimit(resource.RLIMIT_AS, (7 << 30, 7 << 30))
+    except Exception:  # noqa
+        pass
     req = json.load(sys.stdin)
+    if req.get("op") == "builtins":
+        from jmc.compile.command.jmc_function import JMCFunction, FuncType
+        import jmc.compile.command.builtin_function  # noqa: F401  (registers the built-ins)
+        reg = []
+        for ft in FuncType:
+            for name, cls in JMCFunction.get_subclasses(ft).items():
+                reg.append(dict(name=name, type=ft.name, args={k: v.name for k, v in cls.arg_type.items()},
+                                defaults={k: str(v) for k, v in cls.defaults.items()}))
+        json.dump(reg, sys.stdout)
+        return
     timeout = int(req.get("timeout", 5))
     cert = req.get("cert")
     real_stdout = sys.stdout
     sys.stdout = open(os.devnull, "w")
     sys.stderr = open(os.devnull, "w")
     out = []
+    want_times = bool(req.get("times"))
+    import time as _time
+    import gc
+    reserve = [bytearray(64 << 20)]      # given back when a job runs into the memory limit, so that the handler itself can run
     for job in req["jobs"]:
-        signal.alarm(timeout)
-        try:
-            p = JMCTestPack()
-            p.set_jmc_file(job["src"])
-            if job.get("header") is not None:
-                p.set_header_file(job["header"])
-            if cert is not None:
-                p.set_cert(cert)
-            if job.get("pack_format") is not None:
-                p.set_pack_format(job["pack_format"])
-            p.build()
-            signal.alarm(0)
-            out.append(["ok"])
-        except _Timeout:
-            out.append(["timeout"])
-        except EXCEPTIONS as e:
-            signal.alarm(0)
-            out.append(["diag", type(e).__name__])
-        except BaseException as e:  # noqa
-            signal.alarm(0)
+        if not reserve:
+            gc.collect()
+            try:
+                reserve.append(bytearray(64 << 20))
+            except MemoryError:
+                pass
+        t0 = _time.time()
+
+        def classify(e):
+            if isinstance(e, _Timeout):
+                reserve.clear()
+                fr = innermost_jmc_frame(e.__traceback__)
+                return ["timeout", fr[0], fr[1], fr[2], fr[3]]
+            if isinstance(e, EXCEPTIONS):
+                return ["diag", type(e).__name__]
+            if isinstance(e, MemoryError):
+                reserve.clear()
             fr = innermost_jmc_frame(e.__traceback__)
-            out.append(["internal", type(e).__name__, fr[0], fr[1], fr[2], str(e)[:200], fr[3]])
+            return ["internal", type(e).__name__, fr[0], fr[1], fr[2], str(e)[:200], fr[3]]
+
+        try:
+            try:
+                signal.alarm(int(job.get("alarm", timeout)))
+                if "canary" in job:
+                    t_end = _time.time() + job["canary"]
+                    while _time.time() < t_end:
+                        pass
+                else:
+                    p = JMCTestPack()
+                    p.set_jmc_file(job["src"])
+                    if job.get("header") is not None:
+                        p.set_header_file(job["header"])
+                    if cert is not None:
+                        p.set_cert(cert)
+                    if job.get("pack_format") is not None:
+                        p.set_pack_format(job["pack_format"])
+                    p.build()
+                signal.alarm(0)
+                entry = ["ok"]
+            except BaseException as e:  # noqa
+                signal.alarm(0)
+                entry = classify(e)
+        except _Timeout as t:
+            # the alarm fired while the exception of the job was being handled (before `signal.alarm(0)`): the job's
+            # outcome is that exception
+            signal.alarm(0)
+            entry = classify(t.__context__ if t.__context__ is not None else t)
         finally:
             signal.alarm(0)
+        out.append(entry)
+        if want_times:
+            out[-1] = out[-1] + [round(_time.time() - t0, 3)]
     sys.stdout = real_stdout
     json.dump(out, sys.stdout)
 
